@@ -162,6 +162,40 @@ def sname(path):
     return "::".join(segs[-2:]) if len(segs) >= 2 else segs[-1]
 
 
+def _top_split(s):
+    """Split `a, b` at the top-level comma (parentheses, braces, brackets and quotes respected)."""
+    depth = 0
+    q = None
+    for i, c in enumerate(s):
+        if q:
+            if c == q and s[i - 1] != "\\":
+                q = None
+        elif c in "'\"":
+            q = c
+        elif c in "([{":
+            depth += 1
+        elif c in ")]}":
+            depth -= 1
+        elif c == "," and depth == 0:
+            return s[:i], s[i + 1:].lstrip()
+    return None
+
+
+def _subst_key(key, val, old, new):
+    """A decision key with `old` replaced by `new`, keeping the operand order canonical (eq / ord keys sort their operands)."""
+    for head in ("eq(", "ord("):
+        if key.startswith(head) and key.endswith(")"):
+            ab = _top_split(key[len(head):-1])
+            if ab:
+                a, b = ab[0].replace(old, new), ab[1].replace(old, new)
+                if a > b:
+                    a, b = b, a
+                    if head == "ord(":
+                        val = {"<": ">", "=": "=", ">": "<"}.get(val, val)
+                return "%s%s, %s)" % (head, a, b), val
+    return key.replace(old, new), val
+
+
 # ---------------------------------------------------------------------------------------------- interpreter
 
 class Interp:
@@ -180,11 +214,16 @@ class Interp:
         self.decisions = OrderedDict()
         self.effects = []
         self.ord_pairs = set()
+        self.implied = {}            # atoms whose value follows from earlier decisions (not choices of their own)
+        self._stack = []
+        self._block_targets = []
 
     # -- oracle ------------------------------------------------------------------------------
     def choose(self, key, options):
         if key in self.decisions:
             return self.decisions[key]
+        if key in self.implied:
+            return self.implied[key]
         idx = len(self.trace)
         c = self.prefix[idx] if idx < len(self.prefix) else 0
         if c >= len(options):
@@ -463,6 +502,17 @@ class Interp:
         raise Cannot("path resolution %s" % r)
 
     def ev_blockexpr(self, n, env):
+        if n.get("inlined"):
+            # the body of an inlined helper: its `return e` became `break 'inl e` (sa/inline.py)
+            self._block_targets.append(n["id"])
+            try:
+                return self.block(n["block"], env)
+            except _Break as b:
+                if b.target == n["id"]:
+                    return b.v
+                raise
+            finally:
+                self._block_targets.pop()
         return self.block(n["block"], env)
 
     def ev_block(self, n, env):
@@ -530,6 +580,9 @@ class Interp:
             if 0 <= i.v < len(b.items):
                 return b.items[i.v]
             raise _Panic("index out of bounds: %s" % T.render(n))
+        m = self.extra_models.get("index")
+        if m is not None and (n.get("ty") or "") == "u8":
+            return m(self, [b, i], n, env)
         return Sym("%s[%s]" % (show(b), show(i)), n.get("ty"))
 
     def ev_struct(self, n, env):
@@ -620,7 +673,76 @@ class Interp:
     def ev_loop(self, n, env):
         raise Cannot("loop at %s (loops are handled by the calling rule)" % T.loc(n))
 
-    ev_for = ev_loop
+    def ev_for(self, n, env):
+        """`for x in coll { if !p(x) { continue }; ..; return / break }`: a first-match search, interpreted as
+        `coll.iter().find(p)` followed by the body on the found element.  Anything else is left to the calling rule."""
+        body = n["body"]
+        bound_inside = {x["id"] for s_ in T.nodes(body, "let") for x in T.pat_nodes(s_["pat"]) if x.get("p") == "bind"}
+        for x in T.nodes(body):
+            if x.get("k") in ("assign", "assign_op"):
+                raise Cannot("loop at %s (loops are handled by the calling rule)" % T.loc(n))
+            if x.get("k") == "mcall" and "ref_mut" in (x["recv"].get("adj") or []) and T.local_of(T.peel_ref(x["recv"])) not in bound_inside:
+                raise Cannot("loop at %s (loops are handled by the calling rule)" % T.loc(n))
+            if x.get("k") in ("loop", "for") and x is not n:
+                raise Cannot("nested loop at %s" % T.loc(n))
+        src = self.ev(n["iter"], env)
+        if not isinstance(src, Sym):
+            raise Cannot("loop at %s over a collection built on this path" % T.loc(n))
+        it = T.peel(n["iter"])
+        sterm = src.term if (it.get("k") == "mcall" and it["name"] in ("iter", "into_iter", "iter_mut")) else src.term + ".iter()"
+        sub = Interp(self.P, inline=self.inline, models=self.extra_models, assume_ok=self.assume_ok)
+        sub.lazy_locals = self.lazy_locals
+
+        def run(J):
+            e2 = dict(env)
+            if not J.match_pat(n["pat"], Sym("$e"), e2):
+                raise Cannot("loop pattern")
+            return J.ev(body, e2)
+        outs = sub.explore(run)
+        seqs = []
+        for o in outs:
+            if o["exit"] == "panic":
+                raise Cannot("loop body may panic at %s" % T.loc(n))
+            skip = o["exit"] in ("fall", "continue")
+            if skip and o["effects"]:
+                raise Cannot("loop at %s has effects on elements it skips" % T.loc(n))
+            seqs.append((list(o["decisions"].items()), skip))
+        if not any(sk for _, sk in seqs) or all(sk for _, sk in seqs):
+            raise Cannot("loop at %s is not a first-match search" % T.loc(n))
+        # maximal decision prefixes under which no path skips = the predicate of the search
+        prefixes = set()
+        for seq, sk in seqs:
+            if sk:
+                continue
+            for k in range(len(seq) + 1):
+                pre = tuple(seq[:k])
+                if not any(sk2 and tuple(seq2[:k]) == pre for seq2, sk2 in seqs):
+                    prefixes.add(pre)
+                    break
+        if any(not pre or any("$e" not in key for key, _ in pre) for pre in prefixes):
+            raise Cannot("loop at %s: the match condition does not depend on the element only" % T.loc(n))
+        pred = "{%s}" % " | ".join(sorted(" & ".join("%s%s" % ("" if v is True else "!" if v is False else str(v) + ":", k) for k, v in pre) for pre in prefixes))
+        found = Sym("find(%s, %s)" % (sterm, pred))
+        o_ = self.open_option(found)
+        if o_.name != "Some":
+            return UNIT
+        elem = o_.args[0]
+        if len(prefixes) == 1:
+            for key, v in list(prefixes)[0]:
+                k2, v2 = _subst_key(key, v, "$e", elem.term)
+                self.implied.setdefault(k2, v2)
+        e2 = env
+        if not self.match_pat(n["pat"], elem, e2):
+            raise Cannot("loop pattern")
+        try:
+            self.ev(body, e2)
+        except _Break as b:
+            if b.target in self._block_targets:
+                raise
+            return UNIT
+        except _Continue:
+            raise Cannot("the found element is skipped at %s" % T.loc(n))
+        raise Cannot("the found element falls through the loop body at %s" % T.loc(n))
 
     def ev_let_cond(self, n, env):
         return Lit(self.cond(n, env))
@@ -686,6 +808,14 @@ class Interp:
         allargs = ([recv] if recv is not None else []) + args
         if c in self.inline and c in self.P.bodies:
             return self.call_fn_body(self.P.bodies[c], allargs)
+        # a function the reference tree does not have (a helper extracted from an analysed function) is interpreted
+        # inline, so that extracting it changes nothing for the rules; recursion into it stays opaque
+        if c in getattr(self.P, "new_fns", ()) and c in self.P.bodies and c not in self._stack:
+            self._stack.append(c)
+            try:
+                return self.call_fn_body(self.P.bodies[c], allargs)
+            finally:
+                self._stack.pop()
         model = self.extra_models.get(cn) or MODELS.get(cn) or MODELS.get(T.strip_generics(c or ""))
         if model is None and cn:
             # suffix models, e.g. any Iterator::find
@@ -832,6 +962,29 @@ def _opt_unwrap_or_default(I, a, n, env):
     return Sym("default::<%s>()" % ty, ty)
 
 
+def _slice_join(I, a, n, env):
+    """[a, b, ..].join(sep) of string pieces built on this path -> the assembled string."""
+    v, sep = a[0], a[1]
+    if isinstance(v, VecV) and v.base is None and (n.get("ty") or "").endswith("String"):
+        parts = []
+        for i, x in enumerate(v.items):
+            if i:
+                parts.extend(sep.parts if isinstance(sep, StrCat) else [sep])
+            parts.extend(x.parts if isinstance(x, StrCat) else [x])
+        return StrCat(parts)
+    return Sym("%s.join(%s)" % (show(v), show(sep)), n.get("ty"))
+
+
+def _print(I, a, n, env):
+    """print!/println!: the printed text (assembled like format!) is recorded as the argument of the effect."""
+    try:
+        v = _format(I, a, n, env)
+    except Cannot:
+        v = Sym("<formatted text>")
+    I.effects.append(("call", "std::io::_print", [v], n))
+    return UNIT
+
+
 def _try_branch(I, a, n, env):
     """`x?`: Option/Result -> ControlFlow (Continue(payload) | Break(residual))."""
     v = a[0]
@@ -847,10 +1000,10 @@ def _format(I, a, n, env):
     """format!("..{}..", x, y) with plain `{}` placeholders -> the assembled string parts."""
     import re as _re
     snip = n.get("snip") or ""
-    m = _re.match(r'^format!\(\s*"((?:[^"\\]|\\.)*)"\s*(?:,(.*))?\)$', snip, _re.S)
+    m = _re.match(r'^(format|print|println)!\(\s*"((?:[^"\\]|\\.)*)"\s*(?:,(.*))?\)$', snip, _re.S)
     if not m:
         raise Cannot("format! invocation not understood: %s" % snip[:60])
-    fmt = m.group(1)
+    fmt = m.group(2) + ("\\n" if m.group(1) == "println" else "")
     pieces = _re.split(r"(\{[^}]*\})", fmt)
     # argument values: the expansion starts with `let args = (&a, &b, ..);`
     blk = T.peel(n["args"][0]) if n.get("args") else None
@@ -1098,6 +1251,8 @@ MODELS = {
     "std::result::Result::is_ok_and": _res_is_ok_and,
     "std::option::Option::unwrap_or_default": _opt_unwrap_or_default,
     "alloc::fmt::format": _format,
+    "std::io::_print": _print,
+    "std::slice::join": _slice_join, "core::slice::join": _slice_join, "alloc::slice::join": _slice_join,
     "std::ops::Try::branch": _try_branch,
     "core::ops::Try::branch": _try_branch,
     "std::ops::FromResidual::from_residual": lambda I, a, n, env: a[0],
